@@ -125,6 +125,8 @@ func c04(c *Ctx) {
 	// shared: ownership is given up only by the owner-checked release (writer set of IP.podID, C01.R4) —
 	// a repeated DEL cannot free an address another pod holds
 	c01R4(c)
+	// the centralized backend withdraws a queued teardown report under the key it was queued with
+	ruleMapKeyAgreement(c, "C04.R9", eniPkg, "CRDV2", "deletedPods", "the queue of teardown reports of the centralized IPAM backend (queued by DEL, withdrawn by a completed ADD, keyed by pod UID)")
 	ruleArgSwap(c, "C04.R8", c.P.AllFuncs(), "the whole module (the pod key namespace/name identifies the record and the owner of an address)")
 }
 
